@@ -29,6 +29,7 @@
  *   FREED!  an input that is not consumed (on this path) was freed by the call
  *   NC!     an input documented as consumed was neither freed nor moved (LYD_MERGE_DESTRUCT source after a failed merge)
  *   TFREED! a failed merge freed the TARGET forest
+ *   CHAIN!  after freeing one element (or the tail) of a metadata / attribute chain the chain is not the expected rest
  *   REST!   lyd_free_tree/lyd_free_siblings changed something outside the freed subtree
  *   DICT!   a failed lys_parse_mem changed the number of dictionary strings
  *   CTX!    the context does not parse a trivial document any more after lys_parse_mem
@@ -44,6 +45,12 @@
  *   path|path1 N ctx path val opts             (lyd_new_path2 / lyd_new_path; empty slot: parent NULL, tree -> slot)
  *   ins c|s|b|a TGT SRC | unlink N D | free S | freen N | freesib N | chg N val | chgmeta N j val
  *   dup N P opts D s|b ctx | merge T S opts t|s | diff A B opts D | apply T F | rev F D | dmerge F1 F2 opts
+ *   vval P ctx spath val flags  lyd_value_validate(ctx, schema node at spath, val, ctx_node = P or none; flags 1: ask for canonical,
+ *                               2: ask for realtype, 4: ctx argument NULL)
+ *   vcmp N val | chgcanon N M | chgbin N val   lyd_value_compare / lyd_change_term_canon(N, canonical value of M) / _bin
+ *   freemeta N j s|a | freeattr N j s|a   lyd_free_meta_single|_siblings / lyd_free_attr_single|_siblings of the j-th element:
+ *                               afterwards the chain must hold exactly the other elements (s) / the elements before it (a), in order
+ *   dupmeta N j M | anystr N | anycopy N M|~   lyd_dup_meta_single / lyd_any_value_str / lyd_any_copy_value
  *   merge T S opts m K mod    lyd_merge_module with a callback that returns LY_EDENIED at its K-th call (0: never)
  *   apply T F K | dmerge F1 F2 opts K   lyd_diff_apply_module / lyd_diff_merge_module (all modules) with such a callback
  *   parse ctx fmt popts vopts data D | parsep N fmt popts vopts data | parseop ctx fmt r|n|y data D [N]
@@ -360,6 +367,20 @@ static const char *MOD_A =
         " leaf top {type string;}"
         " list kl {config false; leaf a {type string;}}"
         " leaf-list sll {config false; type string;}"
+        " container ty {"
+        "  leaf ii {type instance-identifier;}"
+        "  leaf iin {type instance-identifier {require-instance false;}}"
+        "  leaf lrt {type leafref {path \"/a:top\";}}"
+        "  leaf lrn {type leafref {path \"/a:top\"; require-instance false;}}"
+        "  leaf ulr {type union {type leafref {path \"/a:top\";} type int8;}}"
+        "  leaf uii {type union {type instance-identifier; type enumeration {enum none;}}}"
+        "  leaf bn {type binary {length \"1..4\";}}"
+        "  leaf dc {type decimal64 {fraction-digits 2; range \"-1..10\";}}"
+        "  leaf bt {type bits {bit b0; bit b1; bit b2;}}"
+        "  leaf bo {type boolean;}"
+        "  leaf em {type empty;}"
+        "  leaf-list idl {type identityref {base idb;}}"
+        " }"
         "}";
 
 static const char *MOD_B =
@@ -1421,6 +1442,270 @@ run_cmd(char **w, int nw, struct cmdres *r)
         r->rc = lyd_change_term(n, arg_str(w[2]));
         r->fail = (r->rc && (r->rc != LY_EEXIST) && (r->rc != LY_ENOT)) ? 1 : 0;
         fix_first(s);       /* an instance of a sorted leaf-list moves to its new place */
+    } else if (!strcmp(c, "vval")) {
+        /* vval P ctx spath val flags */
+        struct lyd_node *cn;
+        const struct ly_ctx *ctx;
+        const struct lysc_node *sn;
+        const struct lysc_type *rt = NULL;
+        const char *canon = NULL;
+        char *sp, *v;
+        int s, fl;
+        uint32_t lo = 0, *plo;
+
+        NEED(6);
+        cn = node_at(w[1], &s);
+        ctx = ctx_arg(w[2]);
+        sp = arg_str(w[3]);
+        v = arg_str(w[4]);
+        fl = atoi(w[5]);
+        if (!ctx) {
+            ctx = cn ? LYD_CTX(cn) : C[0];
+        }
+        if (!sp || !v || (cn && (LYD_CTX(cn) != ctx))) {
+            SKIP();
+        }
+        if (cn && !cn->schema) {
+            /* an opaque context node has no schema node to resolve a leafref path from: lyplg_type_resolve_leafref()
+             * dereferences node->schema */
+            SKIP();
+        }
+        plo = ly_temp_log_options(&lo);
+        sn = lys_find_path(ctx, NULL, sp, 0);
+        ly_temp_log_options(plo);
+        if (!sn || !(sn->nodetype & LYD_NODE_TERM)) {
+            SKIP();
+        }
+        r->ectx = ctx;
+        r->rc = lyd_value_validate((fl & 4) ? NULL : ctx, sn, v, strlen(v), cn, (fl & 2) ? &rt : NULL, (fl & 1) ? &canon : NULL);
+        r->fail = (r->rc && (r->rc != LY_EINCOMPLETE)) ? 1 : 0;
+        if (r->fail && canon) {
+            sb_str(&r->flags, "OUT!");
+        }
+        if (canon) {
+            lydict_remove(ctx, canon);
+        }
+    } else if (!strcmp(c, "vcmp")) {
+        /* vcmp N val */
+        struct lyd_node *n;
+        char *v;
+        int s;
+
+        NEED(3);
+        v = arg_str(w[2]);
+        if (!(n = node_at(w[1], &s)) || !n->schema || !(n->schema->nodetype & LYD_NODE_TERM) || !v) {
+            SKIP();
+        }
+        r->ectx = LYD_CTX(n);
+        r->rc = lyd_value_compare((struct lyd_node_term *)n, v, strlen(v));
+        r->fail = (r->rc && (r->rc != LY_ENOT)) ? 1 : 0;
+    } else if (!strcmp(c, "chgcanon") || !strcmp(c, "chgbin")) {
+        /* chgcanon N M : the canonical value of M (a node of the same schema node) | chgbin N val (string / binary types) */
+        struct lyd_node *n, *m;
+        int s, ms;
+
+        NEED(3);
+        if (!(n = node_at(w[1], &s)) || is_key(n) || !n->schema || !(n->schema->nodetype & LYD_NODE_TERM)) {
+            SKIP();
+        }
+        r->inv |= 1u << s;
+        r->ectx = LYD_CTX(n);
+        if (c[3] == 'c') {
+            m = node_at(w[2], &ms);
+            if (!m || (m->schema != n->schema)) {
+                /* "If the value is not canonical, it may lead to unexpected behavior" */
+                SKIP();
+            }
+            r->rc = lyd_change_term_canon(n, lyd_get_value(m));
+        } else {
+            LY_DATA_TYPE bt = ((struct lysc_node_leaf *)n->schema)->type->basetype;
+            char *v = arg_str(w[2]);
+
+            if (!v || ((bt != LY_TYPE_STRING) && (bt != LY_TYPE_BINARY))) {
+                /* the LYB form of the other types is a trusted fixed-size representation */
+                SKIP();
+            }
+            r->rc = lyd_change_term_bin(n, v, strlen(v));
+        }
+        r->fail = (r->rc && (r->rc != LY_EEXIST) && (r->rc != LY_ENOT)) ? 1 : 0;
+        fix_first(s);
+    } else if (!strcmp(c, "freemeta")) {
+        /* freemeta N j s|a */
+        struct lyd_node *n;
+        struct lyd_meta *m, *pick = NULL;
+        struct sbuf exp = {0}, got = {0};
+        int s, cnt = 0, j, all;
+
+        NEED(4);
+        if (!(n = node_at(w[1], &s)) || !n->schema) {
+            SKIP();
+        }
+        for (m = n->meta; m; m = m->next) {
+            cnt += lyd_meta_is_internal(m) ? 0 : 1;
+        }
+        if (!cnt) {
+            SKIP();
+        }
+        all = (w[3][0] == 'a');
+        j = atoi(w[2]) % cnt;
+        for (m = n->meta; m; m = m->next) {
+            if (!lyd_meta_is_internal(m) && !j--) {
+                pick = m;
+                break;
+            }
+        }
+        if (all) {
+            for (m = pick->next; m; m = m->next) {
+                if (lyd_meta_is_internal(m)) {
+                    /* the tail holds metadata that belong to the library */
+                    SKIP();
+                }
+            }
+        }
+        for (m = n->meta; m; m = m->next) {
+            if (m == pick) {
+                if (all) {
+                    break;
+                }
+                continue;
+            }
+            sb_fmt(&exp, "%s:%s=%s;", m->annotation->module->name, m->name, lyd_get_meta_value(m));
+        }
+        r->inv |= 1u << s;
+        r->ectx = LYD_CTX(n);
+        if (all) {
+            lyd_free_meta_siblings(pick);
+        } else {
+            lyd_free_meta_single(pick);
+        }
+        for (m = n->meta; m; m = m->next) {
+            sb_fmt(&got, "%s:%s=%s;", m->annotation->module->name, m->name, lyd_get_meta_value(m));
+        }
+        if (strcmp(exp.s ? exp.s : "", got.s ? got.s : "")) {
+            sb_str(&r->flags, "CHAIN!");
+        }
+        sb_free(&exp);
+        sb_free(&got);
+    } else if (!strcmp(c, "freeattr")) {
+        /* freeattr N j s|a */
+        struct lyd_node *n;
+        struct lyd_node_opaq *q;
+        struct lyd_attr *a, *pick = NULL;
+        struct sbuf exp = {0}, got = {0};
+        int s, cnt = 0, j, all;
+
+        NEED(4);
+        if (!(n = node_at(w[1], &s)) || n->schema) {
+            SKIP();
+        }
+        q = (struct lyd_node_opaq *)n;
+        for (a = q->attr; a; a = a->next) {
+            ++cnt;
+        }
+        if (!cnt) {
+            SKIP();
+        }
+        all = (w[3][0] == 'a');
+        j = atoi(w[2]) % cnt;
+        for (a = q->attr; a; a = a->next) {
+            if (!j--) {
+                pick = a;
+                break;
+            }
+        }
+        for (a = q->attr; a; a = a->next) {
+            if (a == pick) {
+                if (all) {
+                    break;
+                }
+                continue;
+            }
+            sb_fmt(&exp, "%s:%s=%s;", a->name.module_ns ? a->name.module_ns : "", a->name.name, a->value ? a->value : "");
+        }
+        r->inv |= 1u << s;
+        r->ectx = LYD_CTX(n);
+        if (all) {
+            lyd_free_attr_siblings(LYD_CTX(n), pick);
+        } else {
+            lyd_free_attr_single(LYD_CTX(n), pick);
+        }
+        for (a = q->attr; a; a = a->next) {
+            sb_fmt(&got, "%s:%s=%s;", a->name.module_ns ? a->name.module_ns : "", a->name.name, a->value ? a->value : "");
+        }
+        if (strcmp(exp.s ? exp.s : "", got.s ? got.s : "")) {
+            sb_str(&r->flags, "CHAIN!");
+        }
+        sb_free(&exp);
+        sb_free(&got);
+    } else if (!strcmp(c, "dupmeta")) {
+        /* dupmeta N j M */
+        struct lyd_node *n, *trg;
+        struct lyd_meta *m, *pick = NULL, *dup = NULL;
+        int s, ts, cnt = 0, j;
+
+        NEED(4);
+        n = node_at(w[1], &s);
+        trg = node_at(w[3], &ts);
+        if (!n || !n->schema || !trg || !trg->schema) {
+            SKIP();
+        }
+        for (m = n->meta; m; m = m->next) {
+            cnt += lyd_meta_is_internal(m) ? 0 : 1;
+        }
+        if (!cnt) {
+            SKIP();
+        }
+        j = atoi(w[2]) % cnt;
+        for (m = n->meta; m; m = m->next) {
+            if (!lyd_meta_is_internal(m) && !j--) {
+                pick = m;
+                break;
+            }
+        }
+        r->inv |= 1u << ts;
+        r->ectx = LYD_CTX(trg);
+        r->rc = lyd_dup_meta_single(pick, trg, &dup);
+        r->fail = r->rc ? 1 : 0;
+        if (r->rc && dup) {
+            sb_str(&r->flags, "OUT!");
+        }
+    } else if (!strcmp(c, "anystr")) {
+        /* anystr N */
+        struct lyd_node *n;
+        char *str = NULL;
+        int s;
+
+        NEED(2);
+        if (!(n = node_at(w[1], &s)) || !n->schema || !(n->schema->nodetype & LYD_NODE_ANY)) {
+            SKIP();
+        }
+        r->ectx = LYD_CTX(n);
+        r->rc = lyd_any_value_str(n, &str);
+        r->fail = r->rc ? 1 : 0;
+        if (r->rc && str) {
+            sb_str(&r->flags, "OUT!");
+        }
+        free(str);
+    } else if (!strcmp(c, "anycopy")) {
+        /* anycopy N M|~ : lyd_any_copy_value(N, value of M, its type); "~": the value of N is only freed */
+        struct lyd_node *n, *m;
+        int s, ms;
+
+        NEED(3);
+        if (!(n = node_at(w[1], &s)) || !n->schema || !(n->schema->nodetype & LYD_NODE_ANY)) {
+            SKIP();
+        }
+        m = node_at(w[2], &ms);
+        if ((w[2][0] != '~') && (!m || !m->schema || !(m->schema->nodetype & LYD_NODE_ANY) || (m == n) ||
+                (LYD_CTX(m) != LYD_CTX(n)))) {
+            SKIP();
+        }
+        r->inv |= 1u << s;
+        r->modfail |= 1u << s;
+        r->ectx = LYD_CTX(n);
+        r->rc = lyd_any_copy_value(n, m ? &((struct lyd_node_any *)m)->value : NULL,
+                m ? ((struct lyd_node_any *)m)->value_type : LYD_ANYDATA_STRING);
+        r->fail = r->rc ? 1 : 0;
     } else if (!strcmp(c, "chgmeta")) {
         /* chgmeta N j val : j-th (mod count) non-internal metadata of the node */
         struct lyd_node *n;
